@@ -4,6 +4,63 @@ NOTES = ("Every check re-checks the Coq theorems of coq/Props/<id>.v (full .vo b
          "See DESIGN.md for the trusted base and known_findings.json for recorded defects.")
 NOT_APPLICABLE = {}
 CLAIMED = {
+ "C03": {
+  "text": "Theorems: a set/declare statement stores exactly SetSpec.set_spec(previous, op, value) with one Set* call "
+          "(exec_set_spec), a failing statement changes neither the store nor the storer's call log, types are stable, "
+          "compound assignment to an unknown name is an error, the in-memory storer holds a name under at most one type "
+          "after any sequence of writes and across any Next, and a host write is what the next read returns. "
+          "Correspondence: assignment histories with host writes on a recording Storer.",
+  "design_ref": "DESIGN.md section 5, C03",
+  "note": "Axioms: the four stdlib axioms behind Flocq's reals (number type). The host storer is modelled as the "
+          "in-memory storer plus a call log; a host Storer with other behaviour is outside the model.",
+  "technique": "Coq proof of the assignment table and storer invariant + differential correspondence check",
+ },
+ "C06": {
+  "text": "Theorems: Next never returns the panic outcome for any dialogue, state and fuel when the choice is in range "
+          "(next_no_panic); expression evaluation has no panic outcome (eval_no_crash); after an error no choice is "
+          "pending; each fault class of the property is an error (null, unknown variable/function/node/command, "
+          "value-less function, dice/random_range out of domain). Known finding D7 is proved as "
+          "jump_cycle_diverges (non-termination on a non-yielding jump cycle). Correspondence: fault-seeded scripts, "
+          "outcome classes compared.",
+  "design_ref": "DESIGN.md section 5, C06",
+  "note": "Panic sites are those of the hand-written Go code as transcribed into the model; panics inside the Go "
+          "runtime/stdlib that the model does not describe would show up only in the correspondence run. Termination "
+          "is excluded by the OutOfFuel outcome (known finding D7).",
+  "technique": "Coq proof (absence of the panic outcome, fault lemmas) + differential correspondence check",
+ },
+ "C07": {
+  "text": "Theorems on the functional model: restoring into any receiver state yields exactly the node-entry state the "
+          "snapshot records (stack = the node's body, no pending choice or command, variables, visits, checkpoint), "
+          "independently of the receiver; a snapshot taken right after equals the restored one; an unknown node is an "
+          "error that changes nothing; checkpoints are taken at jumps and untouched by assignments. Self-containedness "
+          "of snapshot objects (no shared maps) cannot be stated in a value-based model and is checked by the "
+          "correspondence family (old snapshots re-read after further steps, two runners restored from one snapshot).",
+  "design_ref": "DESIGN.md section 5, C07",
+  "note": "Partial: aliasing is observed, not proved. 'Same elements for every subsequent choice sequence' follows from "
+          "state equality only up to the order of entries in the rebuilt store (extensional equality of stores is not "
+          "lifted through Next by a theorem).",
+  "technique": "Coq proof of restore/snapshot state equations + differential correspondence check over operation histories",
+ },
+ "C10": {
+  "text": "Theorems: with a pending command Next returns Waiting and changes only the poll count (pending_is_inert), on "
+          "completion it behaves exactly like the same state without a pending command (resume_after_completion, then "
+          "C01), an error is surfaced once, a registered handler is invoked exactly once with the evaluated arguments, "
+          "stop is never dispatched. Correspondence: scripts x completion schedules imposed through harness-owned "
+          "channels; <<wait>> with real timers.",
+  "design_ref": "DESIGN.md section 5, C10",
+  "note": "Partial: goroutine-backed handler shapes, data-race freedom and the real duration of <<wait n>> are outside "
+          "the model (channels are an option cell filled by the environment).",
+  "technique": "Coq proof of the pending-command automaton + differential correspondence check with imposed schedules",
+ },
+ "C11": {
+  "text": "Theorem: for every history of Next calls and restores, visited_count(n) = count at the last restore + number "
+          "of successful jumps since then that left n if n is a tracked node, and stays at the restored value for "
+          "untracked nodes and non-nodes (invariant VInv over a ghost jump log); visited(n) = (count > 0); counts never "
+          "decrease across Next. Correspondence: jump graphs rendering every counter in every line.",
+  "design_ref": "DESIGN.md section 5, C11",
+  "note": "Axioms: the four stdlib axioms behind Flocq's reals. The ghost fields jlog/vbase exist only in the model.",
+  "technique": "Coq invariant proof over operation histories + differential correspondence check",
+ },
  "C01": {
   "text": "Theorem next_refines_flow / run_refines_flow: for every dialogue, state, choice sequence and fuel, the runner "
           "model's Next (continuation stack, choice re-applied and queues popped inside the recursion) returns exactly "
